@@ -155,3 +155,47 @@ impl<T: ?Sized> std::fmt::Debug for RwLock<T> {
         f.write_str("RwLock { .. }")
     }
 }
+
+pub const fn const_mutex<T>(v: T) -> Mutex<T> {
+    Mutex::new(v)
+}
+pub const fn const_rwlock<T>(v: T) -> RwLock<T> {
+    RwLock::new(v)
+}
+
+/// `upgradable_read` is modelled as an exclusive lock (at most one upgradable reader exists in
+/// parking_lot as well; the model is stricter towards plain readers).
+pub struct RwLockUpgradableReadGuard<'a, T: ?Sized>(RwLockWriteGuard<'a, T>);
+impl<T: ?Sized> Deref for RwLockUpgradableReadGuard<'_, T> {
+    type Target = T;
+    fn deref(&self) -> &T {
+        &self.0
+    }
+}
+impl<'a, T: ?Sized> RwLockUpgradableReadGuard<'a, T> {
+    pub fn upgrade(s: Self) -> RwLockWriteGuard<'a, T> {
+        s.0
+    }
+}
+impl<T: ?Sized> RwLock<T> {
+    pub fn upgradable_read(&self) -> RwLockUpgradableReadGuard<'_, T> {
+        RwLockUpgradableReadGuard(self.write())
+    }
+    pub fn is_locked(&self) -> bool {
+        match self.0.try_write() {
+            Ok(_) => false,
+            Err(_) => true,
+        }
+    }
+}
+impl<T: ?Sized> Mutex<T> {
+    pub fn is_locked(&self) -> bool {
+        match self.0.try_lock() {
+            Ok(_) => false,
+            Err(_) => true,
+        }
+    }
+    pub fn try_lock_for(&self, _d: std::time::Duration) -> Option<MutexGuard<'_, T>> {
+        self.try_lock()
+    }
+}
